@@ -25,7 +25,10 @@ def run_model(name, *, spec, avals, bvals, vers, max_steps, record, acts, polici
     if emit:
         tail += "INVARIANT %s\n" % emit
     if view and not record:
+        # the VIEW hides the step counter: only a strictly level-ordered search (one worker) reaches every
+        # view-state first at its minimal depth, which is what makes the step bound sound
         tail += "VIEW HView\n"
+        workers = 1
     tail += "CHECK_DEADLOCK FALSE\n"
     return tlc.run_mc("Harvest", consts, tail, name=name, workers=workers, simulate=simulate, depth=depth, seed=seed,
                       coverage=coverage)
@@ -349,7 +352,7 @@ def replay_s(case, variant):
             def _exp(r):
                 return [r[0], r[1], -2] if (w.nan_point and (r[0], r[1]) == (2, 2)) else list(r)
             want = [_exp(r) for r in post["table"]]
-            if os.path.basename(w.data_name) not in o["listing"]:
+            if post["exists"] and os.path.basename(w.data_name) not in o["listing"]:
                 return (label + ": directory holds %r, the table file is missing" % (o["listing"],), "listing", k, notes)
             if ev["a"] != "session":
                 n = len(ev["args"][1])
